@@ -1335,7 +1335,12 @@ func (w *c02World) blipGetAtt(bt *BlipTester, u *c02User, docID, digest, why str
 	fmt.Fprintf(&raw, "%v\n", resp.Properties)
 	raw.Write(body)
 	w.scan(u, "blip_getAttachment", why, fmt.Sprintf("getAttachment docID=%s digest=%s", docID, digest), raw.Bytes(), false)
-	return resp.Type() != blip.ErrorType && resp.Properties["Error-Code"] == ""
+	served = resp.Type() != blip.ErrorType && resp.Properties["Error-Code"] == ""
+	if served && (why == "fresh-connection" || why == "other-document" || why == "after-reply-final") {
+		w.e.fail("attachment_gate", why, map[string]any{"world": w.tag, "named_collection": w.named, "user": u.name, "user_channels": c02Keys(w.effective(u)), "docID": docID, "digest": digest},
+			"getAttachment served outside the window of a rev message carrying it: "+c02Short(body))
+	}
+	return served
 }
 
 func (w *c02World) attOwner(a *c02Att) *c02Rev {
@@ -1498,8 +1503,12 @@ func (w *c02World) blip(u *c02User, quick bool, protocol db.CBMobileSubprotocolV
 						served := true
 						for i := 0; i < 100 && served; i++ {
 							time.Sleep(10 * time.Millisecond)
+							why := "after-reply"
+							if i == 99 {
+								why = "after-reply-final"
+							}
 							mu.Lock()
-							served = w.blipGetAtt(bt, u, docID, a.digest, "after-reply")
+							served = w.blipGetAtt(bt, u, docID, a.digest, why)
 							mu.Unlock()
 						}
 						mu.Lock()
@@ -1637,7 +1646,7 @@ func TestVerifC02(t *testing.T) {
 		quick     bool
 	}
 	plans := []plan{{"w1", true, true, !thorough}, {"w2", false, true, true}}
-	nrand := vBudget(2, 6)
+	nrand := vBudget(1, 6)
 	for i := 0; i < nrand; i++ {
 		plans = append(plans, plan{fmt.Sprintf("x%d", i+1), i%2 == 1, false, true})
 	}
